@@ -345,6 +345,10 @@ impl World {
                                 self.check_leader_complete_pub(t)?;
                                 transfer_done = true;
                                 self.bump("suffix_transfers_completed");
+                            } else if !on.running() || !best_conf.is_member(old) || !best_conf.is_voter(t) {
+                                // a membership change that was still in the log removed one of the two: not the scenario any more
+                                transfer_done = true;
+                                self.bump("suffix_transfers_voided_by_membership_change");
                             } else if tn.running() && tn.obs.role == StateRole::Leader && tn.obs.term > term && round - started > 4 * et_ticks {
                                 // the target leads but the old leader does not follow it although everything is delivered
                                 let d = format!("transfer {old} -> {t} completed (target leads term {}) but the old leader is {:?} at term {} following {}", tn.obs.term, on.obs.role, on.obs.term, on.obs.leader_id);
@@ -465,7 +469,21 @@ impl World {
             // leader's lower-term messages unless check_quorum or pre_vote is on, and never campaigns
             let leader_term = self.nodes.values().filter(|x| x.running() && x.obs.role == StateRole::Leader).map(|x| x.obs.term).max().unwrap_or(0);
             let deaf_nonvoter = self.nodes.values().any(|x| x.running() && x.obs.term > leader_term && leader_term > 0 && !x.obs.promotable && !(x.cfg.check_quorum || x.cfg.pre_vote));
-            let sig = if deaf_nonvoter {
+            // without pre_vote/check_quorum a node with an outdated configuration keeps campaigning among peers
+            // that reject it, its term runs ahead, and it silently ignores the lower-term vote requests of the
+            // only electable node (lower-term MsgRequestVote is dropped without an answer)
+            let best = self.nodes.values().filter(|x| x.running()).max_by_key(|x| (x.sm.applied, x.obs.term)).map(|x| (x.obs.conf.clone(), x.sm.applied));
+            let outrun = match &best {
+                Some((bc, _)) => {
+                    let electable_term = self.nodes.values().filter(|x| x.running() && x.obs.conf == *bc && bc.is_voter(x.id)).map(|x| x.obs.term).max().unwrap_or(0);
+                    leader_term == 0
+                        && self.nodes.values().any(|x| x.running() && x.obs.conf != *bc && x.obs.term > electable_term && bc.is_voter(x.id) && !(x.cfg.check_quorum || x.cfg.pre_vote))
+                }
+                None => false,
+            };
+            let sig = if outrun {
+                "stall:stale_config_voter_outruns_terms"
+            } else if deaf_nonvoter {
                 "stall:higher_term_nonvoter_ignores_leader"
             } else if req_stall {
                 "stall:voter_requests_snapshot_beyond_commit"
